@@ -107,9 +107,15 @@ static const SuiteVer SV[] = {
     { TLS11, 0x0302, 0x002F, "1.1/RSA-CBC" }, { TLS11, 0x0302, 0xC013, "1.1/ECDHE-CBC" },
 };
 static const int N_SV = 6;
-struct Mode { bool victim_server; int sv; bool cauth; int ems; bool resumed = false; };   // ems: 0 both sides on, 1 puppet off, 2 victim off, 3 both off; resumed: session-id resumption of a session established just before
+// ems: 0 both sides on, 1 puppet off, 2 victim off, 3 both off
+// resumed: abbreviated handshake on a session established just before by an honest full handshake (session id echoed by the server)
+// ticket (client victim only): the first handshake was answered with a session id AND a NewSessionTicket (RFC 5077 lets a server issue both), so the client's
+//   sslSessionId_t holds both and its next ClientHello carries the id and the ticket.  resumed=1: the server echoes the id -> abbreviated handshake under the real
+//   secret; resumed=0: the server declines (fresh id, no SessionTicket extension) -> full handshake.
+struct Mode { bool victim_server; int sv; bool cauth; int ems; bool resumed = false; bool ticket = false; };
 static std::string mode_str(const Mode &m) { static const char *en[] = { "both", "puppet-off", "victim-off", "both-off" };
-    return fmt("victim=%s %s %s cauth=%d ems=%s", m.victim_server ? "server" : "client", SV[m.sv].name, m.resumed ? "resumed" : "full", m.cauth, en[m.ems]); }
+    return fmt("victim=%s %s %s cauth=%d ems=%s", m.victim_server ? "server" : "client", SV[m.sv].name,
+               m.ticket ? (m.resumed ? "id+ticket-accepted" : "id+ticket-declined") : m.resumed ? "resumed" : "full", m.cauth, en[m.ems]); }
 
 struct Item { Step st; bool join = false; };
 
@@ -118,7 +124,7 @@ struct Outcome {
     bool dead = false; std::vector<char> reached;          // victim was alive when item i was delivered
     Bytes delivered; bool early_delivery = false;
     bool puppet_fin_ok = false; std::string puppet_err; Bytes puppet_app_in; bool ems_active = false; int last_rc = 0; int alert_from_victim = -1;
-    bool open_failed = false, resumed = false;
+    bool open_failed = false, resumed = false; size_t ch_sid_len = 0, ch_ticket_len = 0;
 };
 
 static int32 cb_accept_valid(ssl_t *, psX509Cert_t *, int32 alert) { return alert; }
@@ -126,7 +132,7 @@ static int32 cb_accept_valid(ssl_t *, psX509Cert_t *, int32 alert) { return aler
 static bool victim_dead(const Endpoint &V) { return V.failed || V.req_close || V.fatal_alert_recv >= 0 || V.close_notify_recv; }
 
 // Drive one trace in lock-step: emit an item, deliver it (with its joined successors) to the victim, hand the victim's answer to the puppet.
-static Outcome run_trace(const Mode &m, const std::vector<Item> &items, size_t chunk, uint32_t seed, const Bytes *victim_says) {
+static Outcome run_trace(const Mode &m, const std::vector<Item> &items, size_t chunk, uint32_t seed, const Bytes *victim_says, int secret = 0) {
     Outcome o; o.reached.assign(items.size(), 0);
     const SuiteVer &sv = SV[m.sv];
     vfh_entropy_reset(4000 + seed); vfh_clock_set_ms(1000000); pup::seed_rand(seed + 1);
@@ -135,21 +141,24 @@ static Outcome run_trace(const Mode &m, const std::vector<Item> &items, size_t c
     if (vc.client) vc.suites = { sv.suite };
     vc.client_auth = m.cauth; vc.cert_cb = m.victim_server ? cb_accept_valid : nullptr;
     if (m.ems >= 2) vc.ems = -1;
+    if (m.ticket) vc.tickets = true;
     pup::Config pc; pc.role = m.victim_server ? pup::CLIENT : pup::SERVER; pc.version = sv.wire; pc.suite = sv.suite; pc.ems = !(m.ems == 1 || m.ems == 3);
     pc.client_auth = m.cauth; pc.seed = seed; pc.pki_dir = verif_dir() + "/pki";
     // session-id resumption: an honest full handshake first (fills the server's session cache / the client's sslSessionId_t), then the connection under test
     sslSessionId_t *sid = nullptr;
     struct SidGuard { sslSessionId_t *&s; ~SidGuard() { if (s) matrixSslDeleteSessionId(s); } } sid_guard{ sid };
-    if (m.resumed) {
+    if (m.resumed || m.ticket) {
         if (vc.client) { if (matrixSslNewSessionId(&sid, NULL) < 0) { o.open_failed = true; return o; } vc.sid = sid; }
         Endpoint V0; if (V0.open(vc) < 0) { o.open_failed = true; return o; }
-        pup::Config pc0 = pc; pc0.seed = seed + 7777; pup::Puppet12 P0(pc0);
+        pup::Config pc0 = pc; pc0.seed = seed + 7777; pc0.ack_ticket_ext = m.ticket; pup::Puppet12 P0(pc0);   // ticket mode: session id + NewSessionTicket
         V0.pump_out(); P0.feed(V0.take_wire());
         for (auto &st : pup::legal_script(pc0)) { Bytes b = P0.emit(st); if (!b.empty()) V0.feed(b); V0.pump_out(); P0.feed(V0.take_wire()); }
         if (!V0.hs_complete() || !P0.peer_finished_ok() || victim_dead(V0)) { o.open_failed = true; return o; }
-        pc.resume = P0.session();
-        if (!pc.resume.valid()) { o.open_failed = true; return o; }
+        if (m.resumed) { pc.resume = P0.session(); if (!pc.resume.valid()) { o.open_failed = true; return o; } }
     }
+    // wrong-session-secret deviation: the puppet keys the abbreviated handshake with a master secret that is not the session's
+    if (secret == 1) pc.master_override.assign(48, 0);
+    else if (secret == 2) { pc.master_override.resize(48); uint64_t x = 0x9E3779B97F4A7C15ULL * (seed + 3); for (auto &b : pc.master_override) { x ^= x << 13; x ^= x >> 7; x ^= x << 17; b = (uint8_t) (x >> 24); } }
     Endpoint V;
     if (V.open(vc) < 0) { o.open_failed = true; return o; }
     pup::Puppet12 P(pc);
@@ -171,7 +180,7 @@ static Outcome run_trace(const Mode &m, const std::vector<Item> &items, size_t c
     if (victim_says && V.hs_complete() && !victim_dead(V)) { V.send(*victim_says); P.feed(V.take_wire()); }
     observe((int) items.size());
     o.dead = victim_dead(V); o.delivered = V.delivered; o.last_rc = V.last_rc;
-    o.resumed = P.resumed();
+    o.resumed = P.resumed(); o.ch_sid_len = P.client_hello_session_id().size(); o.ch_ticket_len = P.client_hello_ticket_len();
     o.puppet_fin_ok = P.peer_finished_ok(); o.puppet_err = P.error(); o.puppet_app_in = P.app_in(); o.ems_active = P.ems_active();
     o.alert_from_victim = P.fatal_alert() ? P.alert_desc() : -1;
     return o;
@@ -202,18 +211,19 @@ static std::string selftest_mode(const Mode &m) {
     if (o.ems_active != want_ems) return d + fmt(": EMS negotiated=%d, expected %d", o.ems_active, want_ems);
     if (o.dead) return d + ": victim reported an error on the honest script";
     if (o.resumed != m.resumed) return d + fmt(": resumed=%d, expected %d", o.resumed, m.resumed);
+    if (m.ticket && (o.ch_sid_len == 0 || o.ch_ticket_len == 0)) return d + fmt(": the client's ClientHello should carry a session id and a ticket (id %zu bytes, ticket %zu bytes)", o.ch_sid_len, o.ch_ticket_len);
     return "";
 }
 static const std::string &selftest(const Mode &m) {
     static std::map<int, std::string> done;
-    int key = (m.victim_server ? 1 : 0) | m.sv << 1 | (m.cauth ? 1 : 0) << 4 | m.ems << 5 | (m.resumed ? 1 : 0) << 7;
+    int key = (m.victim_server ? 1 : 0) | m.sv << 1 | (m.cauth ? 1 : 0) << 4 | m.ems << 5 | (m.resumed ? 1 : 0) << 7 | (m.ticket ? 1 : 0) << 8;
     auto f = done.find(key); if (f != done.end()) return f->second;
     return done[key] = selftest_mode(m);
 }
 
 // ------------------------------------------------------------------ deviation ops
-enum { O_DEL, O_DUP, O_SWAP, O_RETAG, O_SUBST, O_INJECT, O_FLIPFIN, O_PROT, O_MODE, O_CCSBODY, O_N };
-static const char *op_name[] = { "delete", "duplicate", "swap", "retag", "substitute", "inject", "flip-finished", "wrong-protection", "trace-of-other-mode", "ccs-body" };
+enum { O_DEL, O_DUP, O_SWAP, O_RETAG, O_SUBST, O_INJECT, O_FLIPFIN, O_PROT, O_MODE, O_CCSBODY, O_SECRET, O_N };
+static const char *op_name[] = { "delete", "duplicate", "swap", "retag", "substitute", "inject", "flip-finished", "wrong-protection", "trace-of-other-mode", "ccs-body", "wrong-session-secret" };
 struct Op { int kind = -1, pos = 0, arg = 0; std::string text; };
 
 static int item_tok(const Item &x) { return x.st.type_override >= 0 ? tok_of_hs_type(x.st.type_override) : tok_of_msg(x.st.msg); }
@@ -275,6 +285,11 @@ static bool apply_op(Op &op, std::vector<Item> &it, const Mode &m) {
         op.pos = f; op.arg = (int) ((unsigned) op.arg % bodies.size()); it[f].st.payload = bodies[op.arg];
         op.text = fmt("ccs-body@%d(%s)", f, hex(bodies[op.arg].data(), bodies[op.arg].size(), 4).c_str()); return true;
     }
+    case O_SECRET: {   // the abbreviated handshake, keyed by the puppet with a master secret that is not the session's (arg 0: 48 zero bytes, 1: random);
+                       // in a mode where the victim expects a full handshake the abbreviated trace is sent all the same (fresh session id, no ticket extension)
+        if (!m.resumed) { Mode m2 = m; m2.resumed = true; it = base_items(m2); }
+        op.arg = op.arg & 1; op.text = fmt("wrong-session-secret(%s)", op.arg ? "random" : "zero"); return true;
+    }
     case O_MODE: {   // the complete legal trace of a neighbouring mode: other client-auth setting / other key exchange / abbreviated instead of full (or vice versa)
         Mode m2 = m;
         if (op.arg == 0) m2.cauth = !m.cauth; else if (op.arg == 1) m2.sv = m.sv ^ 1; else m2.resumed = !m.resumed;
@@ -298,6 +313,7 @@ static Op draw_op(Tape &t, const std::vector<Item> &it) {
     case O_FLIPFIN: op.arg = (int) t.below(96); break;
     case O_MODE: op.arg = (int) t.below(3); break;
     case O_CCSBODY: op.arg = (int) t.below(6); break;
+    case O_SECRET: op.arg = t.coin(); break;
     }
     return op;
 }
@@ -316,6 +332,7 @@ static std::vector<Op> all_singles(const Mode &m) {
     for (int i = 0; i < n; i++) add(O_PROT, i, 0);
     for (int a = 0; a < 3; a++) add(O_MODE, 0, a);
     for (int a = 0; a < 6; a++) add(O_CCSBODY, 0, a);
+    for (int a = 0; a < 2; a++) add(O_SECRET, 0, a);
     return r;
 }
 // the modes of the bounded-exhaustive target
@@ -324,6 +341,8 @@ static std::vector<Mode> enum_modes() {
     for (int vs = 0; vs < 2; vs++) for (int sv = 0; sv < N_SV; sv++) for (int ems = 0; ems < 4; ems += 3) {
         if (ems && sv >= 2) continue;
         for (int k = 0; k < 3; k++) { Mode m; m.victim_server = vs == 1; m.sv = sv; m.cauth = k == 1; m.ems = ems; m.resumed = k == 2; r.push_back(m); }
+        // client whose session holds an id and a ticket: server accepts (abbreviated) / declines (full)
+        if (vs == 0 && ems == 0 && (sv == 0 || sv == 1 || sv == 4)) for (int k = 0; k < 2; k++) { Mode m; m.victim_server = false; m.sv = sv; m.cauth = false; m.ems = 0; m.resumed = k == 0; m.ticket = true; r.push_back(m); }
     }
     return r;
 }
@@ -357,8 +376,10 @@ static void prop(Tape &t, Ctx &c) {
     it.push_back(trailer_item(0));
 #else
     Mode m; m.victim_server = t.coin(); m.sv = (int) t.below(N_SV); m.cauth = t.coin(); m.ems = (int) t.pick(std::vector<int>{ 0, 0, 0, 1, 2, 3 });
-    m.resumed = t.chance(1, 5);
+    unsigned rk = (unsigned) t.below(5);   // 0: session-id resumption; 4 (client victim): session with id + ticket, accepted or declined by the low seed bit
     uint32_t seed = t.u16();
+    m.resumed = rk == 0;
+    if (rk == 4 && !m.victim_server) { m.ticket = true; m.resumed = seed & 1; }
     unsigned nsel = (unsigned) t.below(10); int nops = nsel == 0 ? 0 : nsel <= 5 ? 1 : 2;   // single deviations are also enumerated completely by c06_seq12_singles
     std::vector<Item> it = base_items(m);
     std::vector<Op> ops;
@@ -394,6 +415,13 @@ static void prop(Tape &t, Ctx &c) {
     std::vector<Tk> tk = tokenize(it);
     bool ecdhe = pup::suite_is_ecdhe(SV[m.sv].suite);
     Verdict v = judge(m.victim_server, ecdhe, m.cauth, m.resumed, tk);
+    int secret = 0; for (auto &op : ops) if (op.kind == O_SECRET) secret = op.arg + 1;
+    if (secret) {
+        // "the peer's Finished value matches the receiver's own transcript" is meant under the session's own secret: whatever else the trace does, a peer
+        // that keys an abbreviated handshake with another master secret must never get a completed handshake
+        if (v.done_at >= 0) { v.viol_at = v.done_at; v.done_at = -1; v.unk_at = -1; v.weak = false; v.why = "Finished (and record protection) computed under a master secret that is not the session's"; }
+        v.sig = fmt("completed-resumption-with-foreign-secret:%s", secret == 1 ? "zero" : "random");
+    }
     // data right behind the puppet's Finished while the victim's Finished is still outstanding (client in a full handshake, server in an abbreviated one):
     // RFC 5246 7.4.9 says wait, RFC 7918 false start says a client may; the receiver may or may not take it
     if (false_start && m.victim_server != m.resumed) { v.weak = true; c.count("false-start-data"); }
@@ -408,17 +436,17 @@ static void prop(Tape &t, Ctx &c) {
     c.sample(desc); if (c.verbose) fprintf(stderr, "case: %s\n  model: viol_at=%d done_at=%d unk_at=%d weak=%d %s\n", desc.c_str(), v.viol_at, v.done_at, v.unk_at, v.weak, v.why.c_str());
 
     Bytes vsay = bytes_of("victim-application-data");
-    Outcome o = run_trace(m, it, chunk, seed, &vsay);
+    Outcome o = run_trace(m, it, chunk, seed, &vsay, secret);
     if (o.open_failed) throw Discard{};
     if (c.verbose) fprintf(stderr, "  outcome: complete=%d(after %d) dead=%d rc=%d delivered=%zu alert_from_victim=%d puppet_err=%s\n", o.ever_complete, o.complete_after, o.dead, o.last_rc, o.delivered.size(), o.alert_from_victim, o.puppet_err.c_str());
 
     // ---- safety invariants (every case)
     VF_CHECK(!o.early_delivery, "appdata-delivered-before-handshake-complete", "APP_DATA delivered while matrixSslHandshakeIsComplete()==false; %s", desc.c_str());
     std::string sig = v.sig.empty() ? "completed-illegal-trace" : v.sig;
-    std::string shape = fmt("%d|%d|%d|%d|", m.victim_server, m.sv, m.cauth, m.resumed);
-    for (auto &op : ops) shape += fmt("%d.%d.%d|", op.kind, op.pos, (op.kind == O_SUBST || op.kind == O_INJECT || op.kind == O_RETAG) ? op.arg : 0);
+    std::string shape = fmt("%d|%d|%d|%d%d|", m.victim_server, m.sv, m.cauth, m.resumed, m.ticket);
+    for (auto &op : ops) shape += fmt("%d.%d.%d|", op.kind, op.pos, (op.kind == O_SUBST || op.kind == O_INJECT || op.kind == O_RETAG || op.kind == O_SECRET) ? op.arg : 0);
     c.count(fmt("ops:%d", (int) ops.size())); for (auto &op : ops) c.count(std::string("op:") + op_name[op.kind]);
-    c.count(std::string("victim:") + (m.victim_server ? "server" : "client")); c.count(std::string("sv:") + SV[m.sv].name); c.count(m.resumed ? "kind:resumed" : "kind:full");
+    c.count(std::string("victim:") + (m.victim_server ? "server" : "client")); c.count(std::string("sv:") + SV[m.sv].name); c.count(m.ticket ? (m.resumed ? "kind:id+ticket-accepted" : "kind:id+ticket-declined") : m.resumed ? "kind:resumed" : "kind:full");
     if (o.ever_complete) c.count("victim-completed");
 
     if (v.viol_at >= 0 && v.done_at < 0) {
